@@ -118,6 +118,22 @@ func NewEvalBinaryNode(node *ast.BinaryNode) (*EvalBinaryNode, error) {
 	return b, nil
 }
 
+func (n *EvalBinaryNode) copyReset() NodeEvaluator {
+	left := copyResetNodeEvaluator(n.leftEvaluator)
+	right := copyResetNodeEvaluator(n.rightEvaluator)
+	if left == n.leftEvaluator && right == n.rightEvaluator {
+		return n
+	}
+	c := *n
+	c.leftEvaluator = left
+	c.rightEvaluator = right
+	if c.leftEvaluator.IsDynamic() || c.rightEvaluator.IsDynamic() {
+		// as in NewEvalBinaryNode: the method value must belong to the copy
+		c.evaluationFn = c.evaluateDynamicNode
+	}
+	return &c
+}
+
 func (n *EvalBinaryNode) String() string {
 
 	return fmt.Sprintf("%s %s %s", n.leftEvaluator, n.operator, n.rightEvaluator)
